@@ -5,6 +5,7 @@ package geom
 func init() {
 	vfHarnesses["C10_frozen_inputs"] = vfhC10FrozenInputs
 	vfHarnesses["C10_aliasing"] = vfhC10Aliasing
+	vfHarnesses["C10_map_order"] = vfhC10MapOrder
 }
 
 // Every operation below runs with its operands frozen: the engine reports any
@@ -144,5 +145,31 @@ func vfhC10Aliasing() {
 	coords := mls.Coordinates()
 	coords[0] = NewSequence([]float64{z.X, z.Y, z.X, z.Y}, DimXY)
 	vfAssert(same(mls.AsBinary(), NewMultiLineString([]LineString{vfLineXY(a, b), vfLineXY(b, c)}).AsBinary()), "Coordinates returns a private slice")
+	vfReach("end")
+}
+
+// Determinism under map iteration order: the same overlay operation is run
+// twice; the engine rotates the iteration order of one `range` over a map (the
+// k-th one executed on the path, k and the rotation given by the harness table)
+// so that exactly one of the two runs sees a different order. The results must
+// be bit-identical (same WKB, same DE-9IM code).
+func vfhC10MapOrder() {
+	p1, p2 := vfPtO("p1"), vfPtO("p2")
+	a, b := vfPointXY(p1).AsGeometry(), vfPointXY(p2).AsGeometry()
+	u1, err1 := SymmetricDifference(a, b)
+	m1, errm1 := Relate(a, b)
+	u2, err2 := SymmetricDifference(a, b)
+	m2, errm2 := Relate(a, b)
+	vfAssert(err1 == nil && err2 == nil && errm1 == nil && errm2 == nil, "no errors")
+	vfAssert(m1 == m2, "same DE-9IM code whatever the map iteration order")
+	w1, w2 := u1.AsBinary(), u2.AsBinary()
+	vfAssert(len(w1) == len(w2), "same WKB length whatever the map iteration order")
+	same := true
+	for i := range w1 {
+		if i < len(w2) {
+			same = vfAnd(same, w1[i] == w2[i])
+		}
+	}
+	vfAssert(same, "same WKB whatever the map iteration order")
 	vfReach("end")
 }
